@@ -47,8 +47,8 @@ def check_c08(tier):
     t0 = time.time()
     rng = random.Random(seed * 7919 + 8)
     wd = os.path.join(OUT, "run_C08_%s_%d" % (tier, os.getpid()))
-    n = 900 if tier == "quick" else 20000
-    nbig = 40 if tier == "quick" else 600
+    n = 900 if tier == "quick" else 80000
+    nbig = 40 if tier == "quick" else 2500
     prof = Profile(caps=[1, 1, 2, 2, 3, 3, 4], extra_keys=[1, 2, 3], flavours=[0, 1, 1], nops=(40, 120),
                    w=dict(ins=34, era=14, find=12, findc=4, insr=7, erar=4, findr=4, findf=3, tick=9, clean=4, age=4,
                           uttl=2, clear=2, obs=1))
